@@ -42,6 +42,9 @@ func runIdstr(in idstrIn) (out map[string]any) {
 // domain invstore: ids -> ConfigMap Store / GetObject / Load
 type invstoreIn struct {
 	IDs []jid `json:"ids"`
+	// ids an EARLIER run stored in the same inventory object (the wrapper is then built around the populated object, as
+	// the next run's client does); what Store accepts must not depend on it
+	Prev []jid `json:"prev,omitempty"`
 }
 
 func newInvCM() *unstructured.Unstructured {
@@ -57,7 +60,16 @@ func runInvstore(in invstoreIn) (out map[string]any) {
 			out = map[string]any{"panic": fmt.Sprint(r)}
 		}
 	}()
-	st := inventory.WrapInventoryObj(newInvCM())
+	cm := newInvCM()
+	if len(in.Prev) > 0 {
+		p := inventory.WrapInventoryObj(cm)
+		if err := p.Store(fromJids(in.Prev), nil); err == nil {
+			if o, err := p.GetObject(); err == nil {
+				cm = o
+			}
+		}
+	}
+	st := inventory.WrapInventoryObj(cm)
 	out = map[string]any{"storeErr": false, "keys": []string{}, "loadErr": false, "loaded": []jid{}}
 	if err := st.Store(fromJids(in.IDs), nil); err != nil {
 		out["storeErr"] = true
@@ -235,10 +247,17 @@ func init() {
 			}
 			for i, a := range pool {
 				for k, b := range pool {
-					if tier != "thorough" && (i*31+k)%5 != 0 {
+					// pairs of distinct ids with the same key are always run
+					sameKey := i != k && fromJids([]jid{a})[0].String() == fromJids([]jid{b})[0].String()
+					if tier != "thorough" && (i*31+k)%5 != 0 && !sameKey {
 						continue
 					}
 					in := invstoreIn{IDs: []jid{a, b}}
+					out.Emit("invstore", in, runInvstore(in))
+					// b (and a+b) stored into the object an earlier run populated with a
+					in = invstoreIn{IDs: []jid{b}, Prev: []jid{a}}
+					out.Emit("invstore", in, runInvstore(in))
+					in = invstoreIn{IDs: []jid{a, b}, Prev: []jid{a}}
 					out.Emit("invstore", in, runInvstore(in))
 				}
 			}
@@ -254,6 +273,11 @@ func init() {
 						in.IDs = append(in.IDs, jid{proto.Pick(rng, []string{"", "ns", "other"}), proto.Pick(rng, []string{"a", "b", "sys:x", "x:y:z", "a.b-c"}), proto.Pick(rng, c15Kinds[:4])[0], proto.Pick(rng, c15Kinds[:4])[1]})
 					} else {
 						in.IDs = append(in.IDs, proto.Pick(rng, pool))
+					}
+				}
+				if rng.Chance(1, 3) {
+					for k := 1 + rng.Intn(3); k > 0; k-- {
+						in.Prev = append(in.Prev, proto.Pick(rng, pool))
 					}
 				}
 				out.Emit("invstore", in, runInvstore(in))
